@@ -118,6 +118,9 @@ def structures(fam, tier):
                         for w in ("none", "signed"):
                             for pv in range(nvar):
                                 out.append({"fam": "pf2", "heights": heights, "K": K, "R": rk, "w": w, "pv": pv})
+                                if pv == 0 and I >= 2:
+                                    # factors of different kinds: real A / B / projections with a complex C (the result must be complex)
+                                    out.append({"fam": "pf2", "heights": heights, "K": K, "R": rk, "w": w, "pv": pv, "mixed": "complex-C"})
     else:
         raise HarnessError(fam)
     return out
@@ -417,6 +420,9 @@ class C03(Check):
                 yield "factor-ndim3", (_copy(w), fs)
             for L in sorted({rk + 1, rk - 1, 1} - {rk, 0}):
                 yield "weights-length", (np.arange(1.0, L + 1), _copy(factors))
+            # weights of the right length but not a vector: (R,1) scales rows instead of columns wherever a mode size equals R
+            yield "weights-ndim2-column", (np.arange(1.0, rk + 1).reshape(rk, 1), _copy(factors))
+            yield "weights-ndim2-row", (np.arange(1.0, rk + 1).reshape(1, rk), _copy(factors))
 
         for kind, xb in bad_sets():
             _reject(ctx, k, "CPTensor", kind, lambda: M.CPTensor(xb), lambda o: o.to_tensor(), bad=xb)
@@ -604,6 +610,8 @@ class C03(Check):
         A = V.ints((I, rk), off, 3, nonzero=True)
         B = V.ints((rk, rk), off + 17, 3)
         C = V.ints((K, rk), off + 34, 3)
+        if case.get("mixed") == "complex-C":
+            C = C + 1j * V.ints((K, rk), off + 51, 2, nonzero=True)
         w = _weights(case["w"], rk, off)
         projs = []
         for i, h in enumerate(heights):
@@ -614,7 +622,7 @@ class C03(Check):
         dense = R3.parafac2_dense(slices)
         sq = R.sqnorm(dense)
         sshape = tuple((h, K) for h in heights)
-        cls = ("uneven-slices" if len(set(heights)) > 1 else "even-slices") + f",weights={'none' if w is None else 'given'}"
+        cls = ("uneven-slices" if len(set(heights)) > 1 else "even-slices") + f",weights={'none' if w is None else 'given'}" + (",real-A-complex-C" if case.get("mixed") else "")
         k = _K(ctx, cls, f"weights={_fmt(w)} A={_fmt(A)} B={_fmt(B)} C={_fmt(C)} projections={_fmt(projs)}")
         mk = lambda: (_copy(w), (A.copy(), B.copy(), C.copy()), _copy(projs))
 
